@@ -16,3 +16,5 @@ def run(ctx):
     functional(ctx); fold(ctx)
     from ..scen_kernels2 import kernels2, kernels_fn
     kernels2(ctx); kernels_fn(ctx)       # table-driven kernels: logic, type tests, casts, list / object / string helpers, functions with a function argument
+    from ..scen_nas import nas_wiring
+    nas_wiring(ctx)
